@@ -25,7 +25,7 @@ TRUSTED_BASE = [
 ASSUMPTIONS = [
     "the XML archive is run with paddingCharNum >= 1 when enableFormat is on (an assert in Finalize documents this precondition of the options; the JSON archive is run with 0..8)",
     "values are restricted to what the formats can carry: valid Unicode text, XML 1.0 characters and names for XML; non-finite doubles are included (a raised error would satisfy the property)",
-    "the catalogue of typed targets is a finite sample of the type universe (42 C++ types); the library has no dynamic tree type of its own",
+    "the catalogue of typed targets is a finite sample of the type universe (59 C++ types); the library has no dynamic tree type of its own",
     "the model of the adapter is tied to /repo by correspondence on the generated cases only",
     "RapidJSON's / pugixml's encoding detection of BOM-less streams is mirrored in the model driver's glue (third-party behaviour, validated per document)",
 ]
